@@ -78,7 +78,10 @@ pub fn set_rules_dir(dir: String) -> Result<()> {
         dir
     };
     let pref_manager = crate::prefs::PreferenceManager::get();
-    return pref_manager.borrow_mut().initialize(PathBuf::from(dir));
+    let result = pref_manager.borrow_mut().initialize(PathBuf::from(dir));
+    // (re)pointing the rules directory is the documented way to recover from damaged rule files when the files' times are not checked
+    crate::speech::invalidate_rule_caches();
+    return result;
 }
 
 /// Returns the version number (from Cargo.toml) of the build
